@@ -181,7 +181,7 @@ pub fn run(tier: Tier, seed: u64) -> i32 {
                 }
             }
         }
-        let mut gs: Vec<Golden> = goldens(&mut bs).into_iter().filter(|g| g.pool.is_some() || g.position.is_some()).collect();
+        let mut gs: Vec<Golden> = goldens(&mut bs).into_iter().filter(|g| g.pool.is_some() || g.position.is_some() || g.ix.slot("position_bundle").is_some()).collect();
         gs.extend(extra_goldens(&mut bs));
         let mut bank = bs.w.bank.clone();
         // forged twins of every token account / mint named by a golden: byte-identical data, but owned by a program that
@@ -387,6 +387,15 @@ pub fn run(tier: Tier, seed: u64) -> i32 {
                                 subs.push((format!("whirlpools_config+{}", a.slot), "another_config_with_its_authority".into(), i));
                             }
                         }
+                    }
+                }
+            }
+            // pair substitution: the mint and the token account of ANOTHER bundle of the same holder, while the bundle
+            // account named stays (a self-consistent pair that does not belong to the bundle)
+            if let (Some(_), Some(mi), Some(_)) = (g.ix.slot("position_bundle"), g.ix.slot("position_bundle_mint"), g.ix.slot("position_bundle_token_account")) {
+                for (m, t) in [(bs.bundle_mint, bs.bundle_token), (bs.empty_bundle_mint, bs.empty_bundle_token)] {
+                    if g.ix.metas[mi].key != m {
+                        subs.push(("position_bundle_mint+position_bundle_token_account".into(), "mint_and_token_account_of_another_bundle".into(), g.ix.clone().with_key("position_bundle_mint", m).with_key("position_bundle_token_account", t)));
                     }
                 }
             }
